@@ -390,12 +390,12 @@ theorem live_setRes (w : WF H d) (g : GoodSet H tw d p k val f) (hd : d p = some
           · simp [hlv, h3]
           · simp [hlv]
 
-theorem fk_home (w : WF H d) (hd : d p = some pe) (hb : pe.body = .obj keys member)
+theorem fk_home (w : WF H d) (hd : d p = some pe) (hr : pe.removed = false) (hb : pe.body = .obj keys member)
     (hf : f = liveMember d member) {k' : String} {c : Ticket} (h : f k' = some c) :
     H.key c = k' ∧ H.par c = some p ∧ live d c = true := by
   subst hf
   obtain ⟨hl, mm, hmm, rfl⟩ := liveMember_some h
-  exact ⟨(w.objMem _ _ _ _ _ _ hd hb hmm).2.1, (w.objMem _ _ _ _ _ _ hd hb hmm).2.2, hl⟩
+  exact ⟨(w.objMem _ _ _ _ _ _ hd hr hb hmm).2.1, (w.objMem _ _ _ _ _ _ hd hr hb hmm).2.2, hl⟩
 
 theorem live_setRes_other (w : WF H d) (g : GoodSet H tw d p k val f) (hd : d p = some pe)
     (hr : pe.removed = false) (hb : pe.body = .obj keys member) (hf : f = liveMember d member)
@@ -409,7 +409,7 @@ theorem live_setRes_other (w : WF H d) (g : GoodSet H tw d p k val f) (hd : d p 
     · exact hc g.hkey
   have h2 : f k ≠ some c := by
     intro h
-    obtain ⟨a, b, _⟩ := fk_home w hd hb hf h
+    obtain ⟨a, b, _⟩ := fk_home w hd hr hb hf h
     rcases hc with hc | hc
     · exact hc b
     · exact hc a
@@ -442,7 +442,7 @@ theorem absNode_setRes (w : WF H d) (g : GoodSet H tw d p k val f) (hd : d p = s
         cases hm : member k' with
         | none => subst hf; simp [liveMember_eq, hm]
         | some mm =>
-          have hkey := (w.objMem _ _ _ _ _ _ hd hb hm).2.1
+          have hkey := (w.objMem _ _ _ _ _ _ hd hr hb hm).2.1
           simp only []
           rw [live_setRes_other w g hd hr hb hf (Or.inr (by rw [hkey]; exact hk))]
           subst hf; simp [liveMember_eq, hm]
@@ -478,12 +478,12 @@ theorem absNode_setRes (w : WF H d) (g : GoodSet H tw d p k val f) (hd : d p = s
           · intro keys' m' k' mm hbe hmm
             apply live_setRes_other w g hd hr hb hf
             left
-            rw [(w.objMem _ _ _ _ _ _ hde hbe hmm).2.2]
+            rw [(w.objMem _ _ _ _ _ _ hde hre hbe hmm).2.2]
             intro h; injection h with h; exact h2 h
           · intro nodes mv n c hbe hn hc
             apply live_setRes_other w g hd hr hb hf
             left
-            rw [w.arrMem _ _ _ _ _ _ hde hbe hn hc]
+            rw [w.arrMem _ _ _ _ _ _ hde hre hbe hn hc]
             intro h; injection h with h; exact h2 h
 
 theorem setRes_other (hd : d p = some pe) {t : Ticket} {e' : Elem} (h1 : t ≠ p) (h2 : t ≠ val.id)
@@ -559,7 +559,7 @@ theorem isContainer_of_skel {d d' : Doc} (h : ∀ t, skel d' t = skel d t) (q : 
     | some e => cases hb : e.body <;> simp [leafBody, hb]
   rw [key, key, h]
 
-theorem WF_setRes (w : WF H d) (g : GoodSet H tw d p k val f) (hd : d p = some pe)
+theorem WF_setRes (w : WF H d) (g : GoodSet H tw d p k val f) (hd : d p = some pe) (hr : pe.removed = false)
     (hb : pe.body = .obj keys member) (hf : f = liveMember d member) :
     WF H (setRes d p pe keys member k val ts) := by
   have hsk := skel_setRes (ts := ts) g hd hb hf
@@ -570,7 +570,8 @@ theorem WF_setRes (w : WF H d) (g : GoodSet H tw d p k val f) (hd : d p = some p
   have hcase : ∀ t e', setRes d p pe keys member k val ts t = some e' →
       (t = p ∧ e' = { pe with body := setBody keys member k val.id ts }) ∨
       (t ≠ p ∧ t = val.id ∧ e' = ⟨some p, false, val.body⟩) ∨
-      (t ≠ p ∧ t ≠ val.id ∧ ∃ e, d t = some e ∧ e'.body = e.body ∧ e'.parent = e.parent) := by
+      (t ≠ p ∧ t ≠ val.id ∧ ∃ e, d t = some e ∧ e'.body = e.body ∧ e'.parent = e.parent ∧
+        (e'.removed = false → e.removed = false)) := by
     intro t e' h
     by_cases h1 : t = p
     · left; subst h1; rw [setRes_apply] at h; simp only [if_true, Option.some.injEq] at h; exact ⟨rfl, h.symm⟩
@@ -578,23 +579,26 @@ theorem WF_setRes (w : WF H d) (g : GoodSet H tw d p k val f) (hd : d p = some p
       · right; left; subst h2; rw [setRes_apply] at h
         simp only [h1, if_false, if_true, Option.some.injEq] at h; exact ⟨h1, rfl, h.symm⟩
       · right; right
-        obtain ⟨e, a, b, c, _⟩ := setRes_other hd h1 h2 h
-        exact ⟨h1, h2, e, a, b, c⟩
+        obtain ⟨e, a, b, c, hrm⟩ := setRes_other hd h1 h2 h
+        refine ⟨h1, h2, e, a, b, c, fun h0 => ?_⟩
+        rcases hrm with hrm | ⟨hrm, _⟩
+        · rw [← hrm]; exact h0
+        · rw [h0] at hrm; cases hrm
   constructor
   · intro t e' h
-    rcases hcase t e' h with ⟨rfl, rfl⟩ | ⟨_, rfl, rfl⟩ | ⟨_, _, e, hdt, _, hp⟩
+    rcases hcase t e' h with ⟨rfl, rfl⟩ | ⟨_, rfl, rfl⟩ | ⟨_, _, e, hdt, _, hp, _⟩
     · exact w.par _ pe hd
     · exact g.hpar.symm
     · rw [hp]; exact w.par _ _ hdt
   · intro t e' q h hq
     rw [isContainer_of_skel hsk]
-    rcases hcase t e' h with ⟨rfl, rfl⟩ | ⟨_, rfl, rfl⟩ | ⟨_, _, e, hdt, _, _⟩
+    rcases hcase t e' h with ⟨rfl, rfl⟩ | ⟨_, rfl, rfl⟩ | ⟨_, _, e, hdt, _, _, _⟩
     · exact w.parCont _ _ _ hd hq
     · rw [g.hpar] at hq; injection hq with hq; subst hq
       exact isContainer_iff.2 ⟨pe, hd, by simp [hb, leafBody]⟩
     · exact w.parCont _ _ _ hdt hq
   · intro q qe keys' m' h hbq
-    rcases hcase q qe h with ⟨rfl, rfl⟩ | ⟨_, rfl, rfl⟩ | ⟨_, _, e, hdt, hbe, _⟩
+    rcases hcase q qe h with ⟨rfl, rfl⟩ | ⟨_, rfl, rfl⟩ | ⟨_, _, e, hdt, hbe, _, hrm⟩
     · simp only [setBody, Body.obj.injEq] at hbq
       obtain ⟨rfl, _⟩ := hbq
       split
@@ -602,8 +606,8 @@ theorem WF_setRes (w : WF H d) (g : GoodSet H tw d p k val f) (hd : d p = some p
       · exact w.objSorted _ _ _ _ hd hb
     · simp only at hbq; have := g.hleaf; simp [hbq, leafBody] at this
     · exact w.objSorted _ _ _ _ hdt (hbe ▸ hbq)
-  · intro q qe keys' m' k' m h hbq hm
-    rcases hcase q qe h with ⟨rfl, rfl⟩ | ⟨_, rfl, rfl⟩ | ⟨_, _, e, hdt, hbe, _⟩
+  · intro q qe keys' m' k' m h hrq hbq hm
+    rcases hcase q qe h with ⟨rfl, rfl⟩ | ⟨_, rfl, rfl⟩ | ⟨_, _, e, hdt, hbe, _, hrm⟩
     · simp only [setBody, Body.obj.injEq] at hbq
       obtain ⟨rfl, rfl⟩ := hbq
       by_cases hk : k' = k
@@ -613,20 +617,20 @@ theorem WF_setRes (w : WF H d) (g : GoodSet H tw d p k val f) (hd : d p = some p
         refine ⟨?_, g.hkey, g.hpar⟩
         cases hmk : member k' with
         | none => simp [mem_insertKey]
-        | some mm => simpa using (w.objMem _ _ _ _ _ _ hd hb hmk).1
+        | some mm => simpa using (w.objMem _ _ _ _ _ _ hd hr hb hmk).1
       · simp only [hk, if_false] at hm
-        obtain ⟨a, b, c⟩ := w.objMem _ _ _ _ _ _ hd hb hm
+        obtain ⟨a, b, c⟩ := w.objMem _ _ _ _ _ _ hd hr hb hm
         refine ⟨?_, b, c⟩
         split
         · exact (mem_insertKey _ _ _).2 (Or.inr a)
         · exact a
     · simp only at hbq; have := g.hleaf; simp [hbq, leafBody] at this
-    · exact w.objMem _ _ _ _ _ _ hdt (hbe ▸ hbq) hm
-  · intro q qe nodes mv n c h hbq hn hc
-    rcases hcase q qe h with ⟨rfl, rfl⟩ | ⟨_, rfl, rfl⟩ | ⟨_, _, e, hdt, hbe, _⟩
+    · exact w.objMem _ _ _ _ _ _ hdt (hrm hrq) (hbe ▸ hbq) hm
+  · intro q qe nodes mv n c h hrq hbq hn hc
+    rcases hcase q qe h with ⟨rfl, rfl⟩ | ⟨_, rfl, rfl⟩ | ⟨_, _, e, hdt, hbe, _, hrm⟩
     · simp [setBody] at hbq
     · simp only at hbq; have := g.hleaf; simp [hbq, leafBody] at this
-    · exact w.arrMem _ _ _ _ _ _ hdt (hbe ▸ hbq) hn hc
+    · exact w.arrMem _ _ _ _ _ _ hdt (hrm hrq) (hbe ▸ hbq) hn hc
 
 theorem Bounded_setRes {L : Int} (g : GoodSet H tw d p k val f) (bd : Bounded d L) (hL : L < ts.lamport) (hid : val.id.lamport ≤ ts.lamport)
     (hd : d p = some pe) (hb : pe.body = .obj keys member) :
